@@ -544,6 +544,8 @@ class Graph(object):
         """
         self._points = []
         self._cur_context = {}
+        # the scale could be set from context during fill
+        self._scale = self._init_context["scale"]
 
     def __repr__(self):
         self._update()
